@@ -331,6 +331,15 @@ def main(argv=None):
     cov, cands, inconc, herr = c05.aggregate(results, left)
     cov['skipped_unsupported_or_illtyped'] = sum(r.get('skipped', 0) for r in results if 'harness_error' not in r)
     cov['skipped_examples'] = sorted(set(w for r in results if 'harness_error' not in r for w in r.get('skipped_why', [])))[:12]
+    # the reference semantics is part of the trusted base: validate it against the host CPU on every run
+    try:
+        from vf.x86spec import validate as V
+        tv, bv, rep = V.main(1 if a.tier == 'quick' else 10, seed=a.seed, verbose=False)
+        cov['spec_validation'] = {'instruction_state_pairs_vs_cpu': tv, 'disagreements': bv, 'instructions': len(V.LINES)}
+        if bv:
+            herr.append('the reference semantics disagrees with the CPU: ' + '; '.join(rep[:3]))
+    except Exception as ex:
+        inconc.append('reference validation could not run: %s %s' % (type(ex).__name__, ex))
     cov['exhaustive'] = False
     cov['rule'] = 'a program = one (prefix set, opcode row) of the integer core; non-trivial = at least one path on which every defined resource was proved equal'
     cov['functions_encoded'] = ['arch.ia32_sem: every semantic function of the integer core + dict_to_Expr + flag helpers', 'tools.emul_helper:get_instr_expr', 'expression.expression:ExprAff slice rewrite']
